@@ -685,9 +685,23 @@ fn linearizable(
     check_disk: bool,
     racy_dups: bool,
 ) -> bool {
+    linearizable_ext(start, events, fin, disk_puts, check_disk, racy_dups, None)
+}
+
+/// `late_effect`: index of a (cancelled) write whose effect may arrive later than its duplicate
+/// check, which ran at its invocation: it is stored even if the key has become live since.
+fn linearizable_ext(
+    start: &Content,
+    events: &[Event],
+    fin: &BTreeMap<KeyId, KeyFinal>,
+    disk_puts: &BTreeSet<(KeyId, u64, String)>,
+    check_disk: bool,
+    racy_dups: bool,
+    late_effect: Option<usize>,
+) -> bool {
     let overlapping: Vec<bool> = (0..events.len())
         .map(|i| {
-            racy_dups
+            late_effect == Some(i) || racy_dups
                 && matches!(events[i].op, COp::W { .. })
                 && (0..events.len()).any(|j| {
                     j != i
@@ -875,7 +889,7 @@ fn judge_cancel(spec: &SchedSpec, start: &Content, out: &SchedOut, disk_puts: &B
     v2.resp = u64::MAX;
     applied.push(v2);
     let in_session_ok = linearizable(start, &others, &out.final_obs, disk_puts, false, false)
-        || linearizable(start, &applied, &out.final_obs, disk_puts, false, false);
+        || linearizable_ext(start, &applied, &out.final_obs, disk_puts, false, false, Some(applied.len() - 1));
     if !in_session_ok {
         fs.push(finding(
             "cancel_session",
@@ -891,7 +905,7 @@ fn judge_cancel(spec: &SchedSpec, start: &Content, out: &SchedOut, disk_puts: &B
     if let Some(r) = &out.restart_obs {
         // the victim's bytes may sit in the blob without being served (not applied) - what is
         // served must be all or nothing; the on-disk parse is checked by the tiling oracle
-        let after_ok = linearizable(start, &others, r, disk_puts, false, false) || linearizable(start, &applied, r, disk_puts, false, false);
+        let after_ok = linearizable(start, &others, r, disk_puts, false, false) || linearizable_ext(start, &applied, r, disk_puts, false, false, Some(applied.len() - 1));
         if !after_ok {
             fs.push(finding(
                 "cancel_restart",
